@@ -5,19 +5,39 @@ from .cfg import cfg_of
 from .expr import Expr, render
 
 
-def _last_def_expr(facts, body, path, local=0):
-    """Expression of the last whole assignment to `local` along `path`."""
+def _last_def_expr(facts, body, path, local=0, upto=None, depth=0):
+    """Expression of the last whole assignment to `local` along `path` (up to position `upto` =
+    (index in path, statement index)). A plain copy of a local that is assigned on several paths (the
+    return slot of an inlined helper / closure) is followed along this very path."""
     E = Expr(facts, body)
     last = None
-    for bb in path:
+    where = None
+    for pi, bb in enumerate(path):
         b = body.blocks[bb]
-        for s in b["stmts"]:
+        for si, s in enumerate(b["stmts"]):
+            if upto is not None and (pi, si) >= upto:
+                break
             if s["k"] == "assign" and s["lhs"]["l"] == local and not s["lhs"]["p"]:
-                last = E.rvalue(s["rv"])
+                last = ("stmt", s)
+                where = (pi, si)
+        if upto is not None and pi >= upto[0]:
+            break
         t = b["term"]
         if t and t["k"] == "call" and t["dest"]["l"] == local and not t["dest"]["p"]:
-            last = E.call(t, bb)
-    return last
+            last = ("call", t, bb)
+            where = (pi, 1 << 30)
+    if last is None:
+        return None
+    if last[0] == "call":
+        return E.call(last[1], last[2])
+    rv = last[1]["rv"]
+    if rv["k"] == "use" and depth < 6:
+        pl = rv["op"].get("c") or rv["op"].get("m")
+        if pl is not None and not pl["p"] and body.single_def(pl["l"]) is None and len(body.defs().get(pl["l"], [])) > 1:
+            sub = _last_def_expr(facts, body, path, pl["l"], upto=where, depth=depth + 1)
+            if sub is not None:
+                return sub
+    return E.rvalue(rv)
 
 
 def decision_table(facts, body, start=0, stop=None, limit=512):
